@@ -59,6 +59,7 @@ def parse_answer(line, numf):
             elif x.startswith('mm='): d['mm'] = numf(x[3:])
             elif x.startswith('live='): d['live'] = tuple(int(v) for v in x[5:].split(','))
             elif x.startswith('loc='): d['loc'] = tuple(x[4:].split(','))
+            elif x.startswith('lcall='): d['lcall'] = x[6:]
             elif ':' in x:
                 z, n, f = x.split(':'); d['els'].append(int(z)); d['ns'].append(numf(n)); d['fr'].append(numf(f))
             else: d['extra'].append(x)
@@ -77,6 +78,7 @@ def parse_answer(line, numf):
         for x in rest[1:]:
             if x.startswith('live='): d['live'] = tuple(int(v) for v in x[5:].split(','))
             elif x.startswith('loc='): d['loc'] = tuple(x[4:].split(','))
+            elif x.startswith('lcall='): d['lcall'] = x[6:]
             else: d['extra'].append(x)
         return d
     return dict(kind='other', text=line)
@@ -270,6 +272,20 @@ class Run:
                 else:
                     ms = list(G.mutations(s, bytes_range=[r.randrange(1, 256) for _ in range(6)] + [40, 41, 46, 48, 32, 101, 72]))
                     for m in r.sample(ms, min(len(ms), 600)): out.append(('mutation', m, None))
+        # structural stream: EVERY string over a five-letter alphabet up to length 6 (7 in the thorough tier) — bracket order, empty groups,
+        # leading digits, nested groups: what no single-character edit of a valid formula reaches (e.g. `H)(O`: equal counts, wrong order)
+        import itertools
+        seen_small = set(m for _, m, _ in out)
+        for n in range(1, (7 if thorough else 6) + 1):
+            for tup in itertools.product('HO()2', repeat=n):
+                b = ''.join(tup).encode()
+                if b not in seen_small: out.append(('small-alphabet', b, None))
+        # bracket transpositions / rotations of generated formulas (two-character edits that keep the bracket COUNT)
+        for fam_, b, f in list(out[:400]):
+            if fam_ != 'grammar' or b.count(b'(') == 0: continue
+            t = b.decode(); i = t.find('('); j = t.rfind(')')
+            for v in (t[:i] + ')' + t[i + 1:j] + '(' + t[j + 1:], t[j:] + t[:j], t.replace('(', '\0').replace(')', '(').replace('\0', ')')):
+                if v and v != t: out.append(('bracket-swap', v.encode(), None))
         return out
 
     def corpus(self):
@@ -356,6 +372,8 @@ def judge(line, c, e, stats=None):
         return [(None, 'library died or answered nothing: ' + c[:120])]
     if loc and loc[0] != loc[1]:
         out.append((K_LOCALE, 'LC_NUMERIC %s before the call, %s after' % loc))
+    if pc.get('lcall') == '1':
+        out.append((None, 'the process locale (setlocale(LC_ALL, NULL)) is not what it was before the call: a category other than LC_NUMERIC was changed and not restored'))
     if pc['extra']: out.append((None, 'result and error both set'))
     t = e.split(' ')
     if t[1] == 'ok':
